@@ -200,33 +200,33 @@ theorem flow_no_report_to_self (cfg : Cfg) (n : Node) (s : Subject) (now : Nat) 
 
 theorem mem_processOutcome_ssr {cfg : Cfg} {n : Node} {s : Subject} {now : Nat} {o : Outcome}
     {r : Report} (hr : r ∈ processOutcome cfg n s now o) :
-    ∃ p reason, p < 4 ∧ sendStatusReport n s p reason now = some r := by
+    ∃ p reason, p < 4 ∧ reason ≤ 11 ∧ sendStatusReport n s p reason now = some r := by
   cases o with
-  | received => exact ⟨_, _, by decide, (mem_toList hr).2⟩
+  | received => exact ⟨_, _, by decide, by decide, (mem_toList hr).2⟩
   | unknownBlock f =>
     simp only [processOutcome, List.mem_append] at hr
     rcases hr with hr | hr
-    · exact ⟨_, _, by decide, (mem_toList hr).2⟩
+    · exact ⟨_, _, by decide, by decide, (mem_toList hr).2⟩
     · cases hdel : has f bfDelete
       · simp [hdel] at hr
       · simp only [hdel, if_true, bundleDeletion] at hr
-        exact ⟨_, _, by decide, (mem_toList hr).2⟩
-  | deliveredAgent => exact ⟨_, _, by decide, (mem_toList hr).2⟩
+        exact ⟨_, _, by decide, by decide, (mem_toList hr).2⟩
+  | deliveredAgent => exact ⟨_, _, by decide, by decide, (mem_toList hr).2⟩
   | noAgent =>
     cases hc : cfg.reportOnlyOnSuccess
     · simp only [processOutcome, hc] at hr
-      exact ⟨_, _, by decide, (mem_toList hr).2⟩
+      exact ⟨_, _, by decide, by decide, (mem_toList hr).2⟩
     · simp [processOutcome, hc] at hr
-  | forwarded => exact ⟨_, _, by decide, (mem_toList hr).2⟩
+  | forwarded => exact ⟨_, _, by decide, by decide, (mem_toList hr).2⟩
   | allFailed => simp [processOutcome] at hr
-  | lifetimeExpired => exact ⟨_, _, by decide, (mem_toList hr).2⟩
-  | hopExceeded => exact ⟨_, _, by decide, (mem_toList hr).2⟩
-  | foreignSource => exact ⟨_, _, by decide, (mem_toList hr).2⟩
+  | lifetimeExpired => exact ⟨_, _, by decide, by decide, (mem_toList hr).2⟩
+  | hopExceeded => exact ⟨_, _, by decide, by decide, (mem_toList hr).2⟩
+  | foreignSource => exact ⟨_, _, by decide, by decide, (mem_toList hr).2⟩
   | notDispatched => simp [processOutcome] at hr
 
 theorem mem_flowReports_ssr {cfg : Cfg} {n : Node} {s : Subject} {now : Nat} {fl : Flow}
     {r : Report} (hr : r ∈ flowReports cfg n s now fl) :
-    ∃ p reason, p < 4 ∧ sendStatusReport n s p reason now = some r := by
+    ∃ p reason, p < 4 ∧ reason ≤ 11 ∧ sendStatusReport n s p reason now = some r := by
   simp only [flowReports, List.mem_flatMap] at hr
   obtain ⟨o, _, hr⟩ := hr
   exact mem_processOutcome_ssr hr
@@ -237,7 +237,7 @@ theorem mem_runHistory_flags {cfg : Cfg} {h : List Step} {r : Report}
     (hr : r ∈ runHistory cfg h) : r.flags = fAdmin := by
   simp only [runHistory, List.mem_flatMap, Step.reports] at hr
   obtain ⟨e, _, hr⟩ := hr
-  obtain ⟨p, reason, _, hs⟩ := mem_flowReports_ssr hr
+  obtain ⟨p, reason, _, _, hs⟩ := mem_flowReports_ssr hr
   exact (ssr_some hs).2.2.1
 
 /-! ### No cascade -/
